@@ -63,6 +63,12 @@
 (*                updated BEFORE the filters), count, first/last (whole s)  *)
 (*  (t) history   t_filter, t_history   /track (TrackViolations below)        *)
 (*  (s) sensors   s_reference           /sensors (SensorViolations below)    *)
+(*  (m) metadata  m_rssi, m_gnss  what each listed reception shows besides  *)
+(*                its stamp (BeastMeta.tla: process_radarcape): the signal  *)
+(*                level in dB of the frame's signal byte (absent for 255),  *)
+(*                and the GNSS time of the frame's 48-bit stamp, shown only *)
+(*                when it is within one hour of the system stamp            *)
+(*                (MetaViolations below)                                    *)
 (* Every clause is closed under taking a prefix of the printed output, so   *)
 (* records still pending when the program is killed are allowed.            *)
 (*                                                                         *)
@@ -76,6 +82,7 @@ EXTENDS Naturals, Integers, Sequences, FiniteSets, TLC, ModeSFrame
 
 BST == INSTANCE Beast
 FLT == INSTANCE Filters
+BM == INSTANCE BeastMeta
 
 INF == 1073741824
 
@@ -300,6 +307,23 @@ SensorViolations(refs, sens) ==
             /\ \A r \in DOMAIN refs : Cardinality({x \in DOMAIN sens : Same(sens[x], refs[r])})
                                         = Cardinality({q \in DOMAIN refs : Same(refs[q], refs[r])})
   IN IF ok THEN {} ELSE {"s_reference"}
+
+(* ------------------------------------------------------------------------ *)
+(* Metadata of the listed receptions (BeastMeta.tla).  A member shows        *)
+(*   rs / rv   whether an rssi is shown, and 1000 * its value in dB          *)
+(*   gs / gd   whether a gnss time is shown, and (gnss - system stamp) in ms *)
+(* sod = second of the UTC day at the scenario's time origin (member stamps  *)
+(* t are ms from that origin); sod < 0: the run crossed midnight, the gnss   *)
+(* clause is not judged.                                                     *)
+(* ------------------------------------------------------------------------ *)
+MetaViolations(In, sod, recs) ==
+  IF Invented(In, recs) THEN {}
+  ELSE LET FrOf(mm) == In[mm.rx][CHOOSE p \in PosOf(In, mm.rx, mm.id) : TRUE].fr
+           badRssi == \E n \in DOMAIN recs : \E j \in DOMAIN recs[n].m :
+                         LET mm == recs[n].m[j] IN ~BM!RssiOk(FrOf(mm), mm.rs, mm.rv)
+           badGnss == sod >= 0 /\ \E n \in DOMAIN recs : \E j \in DOMAIN recs[n].m :
+                         LET mm == recs[n].m[j] IN ~BM!GnssOk(FrOf(mm), sod * 1000 + mm.t, mm.gs, mm.gd)
+       IN (IF badRssi THEN {"m_rssi"} ELSE {}) \cup (IF badGnss THEN {"m_gnss"} ELSE {})
 
 PipelineAbs(In, W, Skew, cfg, recs, tab, stable) == Violations(In, W, Skew, cfg, recs, tab, stable) = {}
 =============================================================================
